@@ -187,15 +187,20 @@ class VdirStore(Store):
           DuplicateUidError: when the uid already exists
         Returns: etag
         """
-        if content_type is None:
-            fi = open_by_extension(data, name, self.extra_file_handlers)
-        else:
-            fi = open_by_content_type(data, content_type, self.extra_file_handlers)
         if name is None:
             name = str(uuid.uuid4())
             extension = MIMETYPES.guess_extension(content_type)
             if extension is not None:
                 name += extension
+        if (
+            content_type is None
+            or MIMETYPES.guess_type(name)[0] in self.extra_file_handlers
+        ):
+            # The name decides what a member is listed and served as (see
+            # iter_with_etag): handle - and validate - the contents as that.
+            fi = open_by_extension(data, name, self.extra_file_handlers)
+        else:
+            fi = open_by_content_type(data, content_type, self.extra_file_handlers)
         fi.validate()
         try:
             uid = fi.get_uid()
